@@ -31,6 +31,49 @@ object_path_unit!(c10_object_path__n6, 6, 9, "C10.object_path.n6.accepts_iff_spe
 #[cfg(not(verif_skip_c10_object_path__n10))]
 object_path_unit!(c10_object_path__n10, 10, 13, "C10.object_path.n10.accepts_iff_spec");
 
+// Small complete-alphabet unit (cheap even when the validator's character predicate gets expensive): "/" followed by
+// ONE byte of ANY value (all 256) and optionally a second one -- every byte class directly after the separator.
+// @unit C10.object_path.one_any_byte props=C10,C03 kind=bounded bound="/"+any-byte+optional-byte fn=zvariant::object_path::validate timeout=600
+#[cfg(not(verif_skip_c10_object_path__anybyte))]
+#[cfg(kani)]
+#[kani::proof]
+#[kani::unwind(6)]
+fn c10_object_path__anybyte() {
+    let b1: u8 = kani::any();
+    let b2: u8 = kani::any();
+    let buf = [b'/', b1, b2];
+    let len: usize = kani::any();
+    kani::assume(len == 2 || len == 3);
+    let s = &buf[..len];
+    let r = validate(s);
+    let got = r.is_ok();
+    core::mem::forget(r);
+    obl!("C10.object_path.one_any_byte.accepts_iff_spec", got == spec_object_path(s));
+    kani::cover!(got && len == 3, "cover.accepted");
+    kani::cover!(!got && b1 >= 0x80, "cover.non_ascii_rejected");
+}
+
+// Non-ASCII instances (concrete): UTF-8 sequences whose bytes are "alphanumeric" when misread as Latin-1 / Unicode
+// scalar values must be rejected -- only ASCII [A-Za-z0-9_] elements are valid.
+// @unit C10.object_path.non_ascii_instances props=C10,C03 kind=instance bound=concrete:"/µ","/ê","/münchen","/a/é" fn=zvariant::object_path::validate,<zvariant::ObjectPath.as.TryFrom<&str>>::try_from timeout=600
+#[cfg(not(verif_skip_c10_object_path__non_ascii))]
+#[cfg(kani)]
+#[kani::proof]
+#[kani::unwind(14)]
+fn c10_object_path__non_ascii() {
+    let k: u8 = kani::any();
+    kani::assume(k < 4);
+    let s: &str = match k { 0 => "/\u{b5}", 1 => "/\u{ea}", 2 => "/m\u{fc}nchen", _ => "/a/\u{e9}" };
+    let r1 = validate(s.as_bytes());
+    let ok1 = r1.is_ok();
+    core::mem::forget(r1);
+    obl!("C10.object_path.non_ascii_instances.validator_rejects", !ok1);
+    let r2 = ObjectPath::try_from(s);
+    let ok2 = r2.is_ok();
+    core::mem::forget(r2);
+    obl!("C10.object_path.non_ascii_instances.constructor_rejects", !ok2);
+}
+
 // "however constructed": TryFrom<&str> and from_static_str accept exactly the grammar (ASCII, N <= 5)
 // @unit C10.try_from.object_path props=C10 kind=bounded bound=ASCII,N<=5 fn=<zvariant::ObjectPath.as.TryFrom<&str>>::try_from,zvariant::ObjectPath::from_static_str timeout=600
 #[cfg(not(verif_skip_c10_try_from_object_path__n5))]
